@@ -27,7 +27,7 @@ PROPS["C01"] = {
     "units": [{
         "pkg": "primitives/ed25519", "configs": ALL4,
         "tests": {
-            "TestC01Verify": T(4000, 100000, env=_C01_ENV),
+            "TestC01Verify": T(4000, 100000, env=_C01_ENV, shards={"quick": 8}),
             "TestC01Panics": T(300, 5000, env=_C01_ENV),
             "TestC01SmallOrderMatrix0": LIST(env=_C01_ENV),
             "TestC01SmallOrderMatrix1": LIST(env=_C01_ENV),
